@@ -27,8 +27,17 @@ func (g *sgen) cmd(prefix string) string {
 	m := markers[g.ncmd%len(markers)]
 	g.ncmd++
 	w := word(g.r, lower+digits, 1, 8)
+	c := fmt.Sprintf("%s %s%c%d", prefix, w, m, g.ncmd)
+	if g.r.IntN(5) == 0 {
+		// commands that end in a run of one character ("show process", "ls -ll"): an echo cut
+		// inside that run must not count as complete
+		c += c[len(c)-1:]
+		if g.r.IntN(2) == 0 {
+			c += c[len(c)-1:]
+		}
+	}
 
-	return fmt.Sprintf("%s %s%c%d", prefix, w, m, g.ncmd)
+	return c
 }
 
 // out generates a small output; returns tokens and the normalised lines.
